@@ -152,7 +152,7 @@ def safety_net(seconds):
     except ValueError:          # not in the main thread
         yield
         return
-    signal.setitimer(signal.ITIMER_REAL, seconds)
+    signal.setitimer(signal.ITIMER_REAL, seconds, 2.0)     # repeat: an exception raised inside a C callback can be swallowed
     try:
         yield
     finally:
